@@ -46,12 +46,13 @@ def workers_for_host(tier, host):
 
 def bounds(tier):
     return {"hosts": common.HOSTS, "paths": ["native fast path", "portable unmarshaller", "native code object argument"],
-            "files": "G-programs k=1 (quick: @module scope, pyc <= 1300 bytes; thorough: all, k=2) x 9 versions + corpus (quick <= 6 KB)"}
+            "files": "G-programs k=1 (quick: @module scope, pyc <= 1300 bytes; thorough: all four scopes, any size) x 9 versions + corpus (quick <= 6 KB, thorough <= 100 KB)"}
 
 
 def prepare(tier):
-    k = 1 if tier == "quick" else 2
-    return {"progs": common.datasets("progs", common.REFS, k), "tier": tier}
+    # thorough = every scope of every k=1 program and the whole corpus on all six hosts (k=2 would be ~45k files x 6
+    # hosts x 3 decodings: hours); pairs of statements add nothing host-specific beyond what C01/C12 thorough cover
+    return {"progs": common.datasets("progs", common.REFS, 1), "tier": tier}
 
 
 def cases(plan, tier, shard, nshards, host):
